@@ -29,6 +29,7 @@ def gen_case(rng, tier):
     prof = B.default_profile(rng, tier)
     prof["w_op"] = rng.choice([0, 0, 1])
     prof["views"] = rng.random() < 0.3  # dependencies through subviews of one allocation
+    prof["nested_views"] = rng.random() < 0.5  # ... and through views of views
     prof["streams"] = rng.random() < 0.15  # streaming regions: XDMA extension kernels on the DM core, snax_alu on the compute core
     prof["multiblock"] = rng.random() < 0.1  # several blocks (cf.cond_br): a barrier in one block does not cover the next
     prof["op_reads"] = rng.choice([0, 0, 0, 0, 0.5])  # ops executed by every core that read a local buffer
@@ -43,7 +44,10 @@ def gen_case(rng, tier):
     ast = B.BufGen(rng, prof).program()
     envs = [B.gen_env(rng, zero_trips=prof["zero_trips"]) for _ in range(K_ENVS[tier])]
     envs[0]["stall"] = False
-    return {"ast": ast, "envs": envs, "variant": variant}
+    case = {"ast": ast, "envs": envs, "variant": variant}
+    if variant in "BD" and rng.random() < 0.5:
+        case["to_func"] = True
+    return case
 
 
 def args_for(machine: BufferMachine, env):
@@ -117,7 +121,8 @@ def execute(case):
         if case["variant"] in ("B", "D"):
             if n not in compiled_b:
                 try:
-                    compiled_b[n] = compile_variant(src, f"{STATIC if static else 'insert-sync-barrier'},dispatch-regions{{nb_cores={n}}}")
+                    # every other environment also runs snax-to-func (barriers become calls, deallocs disappear)
+                    compiled_b[n] = compile_variant(src, f"{STATIC if static else 'insert-sync-barrier'},dispatch-regions{{nb_cores={n}}}" + (",snax-to-func" if case.get("to_func") else ""))
                 except Rejected as r:
                     out["status"] = "rejected"
                     out["rejected"] = f"{r.stage}:{r.cls}"
@@ -202,8 +207,10 @@ def shrink(case):
     if len(case["envs"]) == 1:
         for e in B.shrink_env(case["envs"][0]):
             yield dict(case, envs=[e])
+    if case.get("to_func"):
+        yield {k: v for k, v in case.items() if k != "to_func"}
     if case["variant"] in ("B", "D"):
-        yield dict(case, variant="A" if case["variant"] == "B" else "C")
+        yield dict({k: v for k, v in case.items() if k != "to_func"}, variant="A" if case["variant"] == "B" else "C")
     for nb in B.shrink_body(case["ast"]["body"]):
         yield dict(case, ast=dict(case["ast"], body=nb))
     if case["ast"].get("blocks"):
@@ -219,7 +226,7 @@ def sample_of(case):
 
 
 META = {
-    "real": ["snaxc/transforms/insert_sync_barrier.py", "snaxc/util/dispatching_rules.py", "snaxc/transforms/dispatch_regions.py (variants B, D)", "snaxc/transforms/memref_to_snax.py + snax_allocate.py MiniMallocate (variants C, D: life times, inserted deallocs, constant addresses)"],
+    "real": ["snaxc/transforms/snax_to_func.py (half of the B / D cases)", "snaxc/transforms/insert_sync_barrier.py", "snaxc/util/dispatching_rules.py", "snaxc/transforms/dispatch_regions.py (variants B, D)", "snaxc/transforms/memref_to_snax.py + snax_allocate.py MiniMallocate (variants C, D: life times, inserted deallocs, constant addresses)"],
     "stub": [
         "IR interpreter (simsnax/interp.py); multi-core scheduler, cluster barrier, symbolic memory with race monitor (simsnax/cluster.py)",
         "core roles in variant A follow the dispatch rule re-stated in /verif",
